@@ -750,7 +750,9 @@ def strat_groupby(draw):
     else:
         how = draw(st.sampled_from(["str", "list", "call", "call_list"] if len(cols) == 1 else ["list", "call_list"]))
     # groups: indices into the sorted observed keys (resolved in evaluate), or None
-    groups = draw(st.one_of(st.none(), st.none(), st.lists(st.integers(0, 5), min_size=1, max_size=3, unique=True)))
+    # (an empty list of groups restricts the check to no group at all: not the same as None)
+    groups = draw(st.one_of(st.none(), st.none(), st.lists(st.integers(0, 5), min_size=1, max_size=3, unique=True),
+                            st.lists(st.integers(0, 5), min_size=0, max_size=1, unique=True)))
     return {"v": v, "g": g, "h": h, "k": kb, "index": draw(_index_strategy(n)), "cols": cols, "how": how,
             "groups": groups, "unobserved_group": draw(st.booleans()) if cols == ["c"] else False,
             "level": draw(st.sampled_from(["column", "column", "frame"])),
